@@ -310,6 +310,8 @@ func genSession(r *rng, t *tree, n int, allowWrite bool, mutatingPct int) []creq
 			p := genPath(r, t, 'f')
 			if r.chance(5) {
 				p = "/some/CLOSEFILE"
+			} else if r.chance(7) {
+				p = "/CLOSEFILE" // the reserved path: closes the connection's file and nothing else
 			}
 			lastOpened = p
 			roOpen = t.sizeOf(filepath.Clean("/"+p)) != 1000 || roOpen
